@@ -218,8 +218,19 @@ class LogCapture:
 
 
 def _names_from(msg, procs):
-    body = msg.split("following processes:", 1)[1].strip() if "following processes:" in msg else ""
-    return [p for p in procs if re.search(r"(^|, )" + re.escape(p) + r" \(max error", body)]
+    """the processes a failure message names (None when it names none: the property fixes the verdict, not the wording)"""
+    if "following processes:" in msg and "(max error" in msg:
+        body = msg.split("following processes:", 1)[1].strip()
+        return [p for p in procs if re.search(r"(^|, )" + re.escape(p) + r" \(max error", body)]
+    found = [p for p in procs if re.search(r"(?<![\w])" + re.escape(p) + r"(?![\w])", msg)]
+    return found or None
+
+
+PROGRAMMING_ERRORS = (TypeError, AttributeError, IndexError, KeyError, NameError, ZeroDivisionError, AssertionError)
+
+
+def _flagged(messages, names):
+    return [n for n in names if any(n in m for m in messages)]
 
 
 def run_impl(case):
@@ -239,28 +250,24 @@ def run_impl(case):
                     out[f"mb_{mode}"] = dict(kind="failed", procs=_names_from(cap.warnings[0], sysd["procs"]), via="warning")
                 else:
                     out[f"mb_{mode}"] = dict(kind="success", said=any("Success" in i for i in cap.infos))
-            except ValueError as e:
-                if "Mass balance check failed" in str(e):
-                    out[f"mb_{mode}"] = dict(kind="failed", procs=_names_from(str(e), sysd["procs"]), via="raise")
-                else:
-                    out[f"mb_{mode}"] = dict(kind="crashed", exc="ValueError", msg=str(e)[:80])
-            except Exception as e:  # noqa
+            except PROGRAMMING_ERRORS as e:
                 out[f"mb_{mode}"] = dict(kind="crashed", exc=type(e).__name__, msg=str(e)[:80])
+            except Exception as e:  # noqa   (whatever is raised on purpose counts as the failure verdict)
+                out[f"mb_{mode}"] = dict(kind="failed", procs=_names_from(str(e), sysd["procs"]), via="raise")
         for mode in (True, False):
             cap = LogCapture()
             ms.logging = cap
             try:
                 mfa.check_flows(exceptions=list(case["exceptions"]), raise_error=mode, verbose=False)
-                nanf = [m.split("flow ", 1)[1][:-1] for m in cap.warnings if m.startswith("NaN values found")]
-                negf = [m.split("flow ", 1)[1][:-1] for m in cap.warnings if m.startswith("Negative value in flow")]
+                # the flows a warning names, by the kind of complaint (the wording is the library's own; the flow name is what counts)
+                fnames = [f["name"] for f in sysd["flows"]]
+                nanf = _flagged([m for m in cap.warnings if "nan" in m.lower()], fnames)
+                negf = _flagged([m for m in cap.warnings if "nan" not in m.lower()], fnames)
                 out[f"cf_{mode}"] = dict(kind="result", nan=nanf, neg=negf, success=any("Success" in i for i in cap.infos))
-            except ValueError as e:
-                if "NaN values found" in str(e) or "Negative value in flow" in str(e):
-                    out[f"cf_{mode}"] = dict(kind="raised", msg=str(e)[:120])
-                else:
-                    out[f"cf_{mode}"] = dict(kind="crashed", exc="ValueError", msg=str(e)[:80])
-            except Exception as e:  # noqa
+            except PROGRAMMING_ERRORS as e:
                 out[f"cf_{mode}"] = dict(kind="crashed", exc=type(e).__name__, msg=str(e)[:80])
+            except Exception as e:  # noqa
+                out[f"cf_{mode}"] = dict(kind="raised", msg=str(e)[:120])
         try:
             bal = mfa._get_mass_balance()
             out["balances"] = {p: (dict(dims=obs_dims(b.dims), values=observe_values(b.values)) if hasattr(b, "values") else None)
@@ -343,7 +350,7 @@ def oracle(case, obs):
             return f"check_mass_balance(raise_error={mode}) reports success although {failing} are unbalanced / NaN {desc}"
         if not failing and r["kind"] != "success":
             return f"check_mass_balance(raise_error={mode}) fails for {r.get('procs')} although every process is balanced within the tolerance {desc}"
-        if failing and sorted(r["procs"]) != sorted(failing):
+        if failing and r["procs"] is not None and sorted(r["procs"]) != sorted(failing):
             return f"check_mass_balance names {r['procs']}, the unbalanced processes are {failing} {desc}"
         if failing and r["via"] != ("raise" if mode else "warning"):
             return f"check_mass_balance(raise_error={mode}) reported through {r['via']}"
